@@ -945,3 +945,11 @@ VARIANTS['C17'] += [
     V('neutral: unused adaptation sets collected with a set comprehension',
       [('dashlive/server/requesthandler/multi_period_streams.py', "    unused_tracks: set[int] = set()\n    for trk in period.adaptation_sets:\n        unused_tracks.add(trk.pk)\n", "    unused_tracks: set[int] = {trk.pk for trk in period.adaptation_sets}\n")], None),
 ]
+
+VARIANTS['C05'] += [
+    V('reference duration converted through the float helper',
+      [('dashlive/mpeg/dash/reference.py', "        return self.media_duration * timescale // self.timescale\n", "        return self.media_duration * timescale / self.timescale\n")],
+      'R05.7', 'media_duration_using_timescale'),
+    V('neutral: reference duration converted in two integer steps',
+      [('dashlive/mpeg/dash/reference.py', "        return self.media_duration * timescale // self.timescale\n", "        scaled = self.media_duration * timescale\n        return scaled // self.timescale\n")], None),
+]
